@@ -90,15 +90,15 @@ Definition wants_done (m : machine) (C : config) (a : nat) : bool :=
 
 (* entering a final state raises AT MOST ONE done event: for the nearest ancestor
    that declares onDone and is done; otherwise (top-level final) completes *)
-Theorem fire_on_done_cases eng m fin s :
+Theorem fire_on_done_cases eng pr m fin s :
   (exists pre a post,
       ancestors m fin = pre ++ a :: post
       /\ (forall b, In b pre -> wants_done m (s_cfg s) b = false)
       /\ wants_done m (s_cfg s) a = true
-      /\ fire_on_done eng m fin s = send_self eng (done_event m a 0) s)
+      /\ fire_on_done eng pr m fin s = send_self eng (done_event m a 0) (note_chained eng pr s))
   \/ ((forall b, In b (ancestors m fin) -> wants_done m (s_cfg s) b = false)
-      /\ (fire_on_done eng m fin s = s
-          \/ fire_on_done eng m fin s =
+      /\ (fire_on_done eng pr m fin s = s
+          \/ fire_on_done eng pr m fin s =
              complete (match m_output m with Some o => Some o | None => n_output (nd m fin) end) s)).
 Proof.
   unfold fire_on_done. fold (wants_done m (s_cfg s)).
@@ -123,13 +123,14 @@ Proof. unfold send_self. destruct (accepts eng (s_status s)); auto. Qed.
 Lemma complete_queue o s : s_queue (complete o s) = s_queue s.
 Proof. unfold complete. destruct (s_status s); reflexivity. Qed.
 
-Theorem fire_on_done_at_most_one eng m fin s :
-  s_queue (fire_on_done eng m fin s) = s_queue s
+Theorem fire_on_done_at_most_one eng pr m fin s :
+  s_queue (fire_on_done eng pr m fin s) = s_queue s
   \/ exists a, In a (ancestors m fin) /\ wants_done m (s_cfg s) a = true
-               /\ s_queue (fire_on_done eng m fin s) = s_queue s ++ [done_event m a 0].
+               /\ s_queue (fire_on_done eng pr m fin s) = s_queue s ++ [done_event m a 0].
 Proof.
-  destruct (fire_on_done_cases eng m fin s) as [[pre [a [post [Ha [_ [Hw Hf]]]]]]|[_ [Hf|Hf]]]; rewrite Hf.
-  - destruct (send_self_queue eng (done_event m a 0) s) as [H|H]; [now left|].
+  destruct (fire_on_done_cases eng pr m fin s) as [[pre [a [post [Ha [_ [Hw Hf]]]]]]|[_ [Hf|Hf]]]; rewrite Hf.
+  - assert (Hq : s_queue (note_chained eng pr s) = s_queue s) by (unfold note_chained; destruct eng, pr; reflexivity).
+    destruct (send_self_queue eng (done_event m a 0) (note_chained eng pr s)) as [H|H]; rewrite Hq in H; [now left|].
     right. exists a. split; [rewrite Ha; apply in_or_app; right; now left|]. now split.
   - now left.
   - left. apply complete_queue.
